@@ -1,13 +1,57 @@
-// c07 (temporary main for the sequential part; the concurrent plan is written elsewhere).
+// c07: every call returns — no deadlock, hang or panic.
+// Sequential part (seq*.go): every method x adversarial argument domain x
+// reachable states, on every file-system type. Concurrent part (here): every
+// schedule (preemption bound) of the C06 programs plus the lock-order programs;
+// a deadlock is decided by the scheduler (no enabled thread), never by a timer.
 package main
 
-import "verif/lib/concfs"
+import (
+	"time"
 
-func buildPlanConc(tier string) concfs.Plan {
-	return concfs.Plan{ID: "C07", Oracle: concfs.OrReturns, Bound: 1, Programs: concfs.Pairs("MemFS", false, concfs.Templates("MemFS", true, true))[:4]}
+	"verif/lib/concfs"
+	"verif/lib/fsx"
+)
+
+func lockOrderPrograms(fs string) []concfs.Prog {
+	one := func(c fsx.Call) []fsx.Call { return []fsx.Call{c} }
+
+	ps := []concfs.Prog{
+		// opposite cross-directory renames
+		{FS: fs, Threads: [][]fsx.Call{one(fsx.Call{Op: "Rename", A: "/d/x", B: "/f/x"}), one(fsx.Call{Op: "Rename", A: "/f/g", B: "/d/g"})}},
+		{FS: fs, Threads: [][]fsx.Call{one(fsx.Call{Op: "Rename", A: "/d/e", B: "/f/e"}), one(fsx.Call{Op: "Rename", A: "/f", B: "/d/e/f"})}},
+		// removal of a directory against operations inside it
+		{FS: fs, Threads: [][]fsx.Call{one(fsx.Call{Op: "Remove", A: "/d/e"}), one(fsx.Call{Op: "Mkdir", A: "/d/e/y", Perm: 0o755})}},
+		{FS: fs, Threads: [][]fsx.Call{one(fsx.Call{Op: "RemoveAll", A: "/d"}), one(fsx.Call{Op: "Rename", A: "/d/e/z", B: "/d/z"})}},
+		{FS: fs, Threads: [][]fsx.Call{one(fsx.Call{Op: "RemoveAll", A: "/d"}), one(fsx.Call{Op: "Link", A: "/d/x", B: "/d/e/l"})}},
+		// listing against attribute changes of a child
+		{FS: fs, Threads: [][]fsx.Call{one(fsx.Call{Op: "ReadDir", A: "/d"}), one(fsx.Call{Op: "Chmod", A: "/d/x", Perm: 0o600})}},
+		{FS: fs, Threads: [][]fsx.Call{one(fsx.Call{Op: "ReadDir", A: "/d"}), one(fsx.Call{Op: "Remove", A: "/d/x"})}},
+	}
+
+	return ps
+}
+
+func buildPlan(tier string) concfs.Plan {
+	pl := concfs.Plan{ID: "C07", Oracle: concfs.OrReturns, Bound: 2, PerProg: 20 * time.Second}
+
+	for _, fs := range []string{"MemFS", "OrefaFS"} {
+		pl.Programs = append(pl.Programs, concfs.Pairs(fs, false, concfs.Templates(fs, false, true))...)
+		pl.Programs = append(pl.Programs, lockOrderPrograms(fs)...)
+	}
+
+	if tier == "thorough" {
+		pl.Bound = 3
+		pl.PerProg = 60 * time.Second
+
+		for _, fs := range []string{"MemFS", "OrefaFS"} {
+			pl.Programs = append(pl.Programs, concfs.Triples(fs, concfs.SingleStep(concfs.Templates(fs, true, true)))...)
+		}
+	}
+
+	return pl
 }
 
 func main() {
 	maybeSeqOnly()
-	concfs.Main("C07", "model_checking", buildPlanConc, runSeq)
+	concfs.Main("C07", "model_checking", buildPlan, runSeq)
 }
